@@ -17,7 +17,7 @@ TRUSTED = [
     "divisions in binary64); tied by differential execution with the value as an exact ratio",
 ]
 ASSUMPTIONS = ["arguments respect the typed overloads (both ticks, both timestamps, or omitted); mixed forms hit an assert and are not generated"]
-# truth: note times are the parsed chart's own (C01 settles them); tick bounds are resolved by the Lean model's hint-free query
+# truth: the notes are the ones the file writes (generator), their times and the tick bounds are the Lean model's hint-free query
 RULE = ("tracks × tempo maps × (start, end) as ticks / timestamps / omitted, with bounds coinciding exactly with note times and "
         "with each other, absent tracks, note-less tracks, non-positive intervals; promised: value = count of notes with "
         "start time in [S, E] divided by (E−S) seconds within 3·2⁻⁵³ relative error, ValueError otherwise; non-trivial = ≥ 1 "
@@ -37,25 +37,32 @@ def slice(ctx: fw.Ctx) -> fw.Outcome:
         """make the call now (in this process state); the promise is computed afterwards, with tick bounds resolved by the
         model's hint-free query — never by asking the tempo map under test"""
         try:
-            v = c.notes_per_second(ins[i], dif[d], *args)
+            if len(args) == 2 and args[0] is None:
+                v = c.notes_per_second(ins[i], dif[d], end=args[1])  # the start omitted, the end given
+            else:
+                v = c.notes_per_second(ins[i], dif[d], *args)
             x = impl.rat(float(v))
         except Exception as ex:  # noqa: BLE001
             x = impl.err_name(ex)
-        ends = [n.end_timestamp for n in real.note_events] if real is not None else []
-        pending.append(dict(x=x, has=bool(real is not None and real.note_events), nts=list(nts), ends=ends, args=args, R=R, i=i, d=d, form=form,
+        # the notes of the chosen track are the notes the file writes: their ticks and longest lengths come from the generator,
+        # their times from the model's hint-free query — nothing of the promise is read back from the parsed chart
+        tr_ = next((t_ for t_ in src.tracks if (t_.inst, t_.diff) == (i, d)), None)
+        wt = [g_.tick for g_ in tr_.groups] if tr_ is not None else []
+        we = [g_.tick + gen.longest_truth(g_) for g_ in tr_.groups] if tr_ is not None else []
+        pending.append(dict(x=x, has=bool(wt), wt=wt, we=we, args=args, R=R, i=i, d=d, form=form,
                             sb=sb, eb=eb, history=history, res=src.res, tempo=list(src.tempo)))
 
     def settle():
-        need = sorted({(p["res"], tuple(p["tempo"]), a) for p in pending for a in p["args"] if isinstance(a, int)})
+        need = sorted({(p["res"], tuple(p["tempo"]), a) for p in pending for a in list(p["args"]) + p["wt"] + p["we"]
+                       if isinstance(a, int) and not isinstance(a, bool)})
         rep = driver.run_parallel([f"tsat {res} {','.join(f'{t}:{n}' for t, n in tempo)} {tick} 0" for res, tempo, tick in need])
         table = dict(zip(need, rep))
         for p in pending:
             x, args, R, i, d, sb, eb, form = p["x"], p["args"], p["R"], p["i"], p["d"], p["sb"], p["eb"], p["form"]
-            nts = p["nts"]
 
             def bound(v, default):
                 if v is None:
-                    return default
+                    return default() if callable(default) else default
                 if isinstance(v, int):
                     r = table[(p["res"], tuple(p["tempo"]), v)]
                     if r.startswith(("E ", "MAP ")):
@@ -66,8 +73,9 @@ def slice(ctx: fw.Ctx) -> fw.Outcome:
                 want = "E ValueError"
             else:
                 try:
+                    nts = [bound(t_, None) for t_ in p["wt"]]
                     S = bound(args[0] if len(args) > 0 else None, timedelta(0))
-                    E = bound(args[1] if len(args) > 1 else None, max(p["ends"]))
+                    E = bound(args[1] if len(args) > 1 else None, lambda: max(bound(t_, None) for t_ in p["we"]))
                     D = (E - S) // US
                     if D <= 0:
                         want = "E ValueError"
@@ -136,7 +144,7 @@ def slice(ctx: fw.Ctx) -> fw.Outcome:
             real = c.instrument_tracks.get(ins[i], {}).get(dif[d])
             nts = [n.timestamp for n in real.note_events] if real else []
             nticks = ([n.tick for n in real.note_events] if real else []) or [0]
-            form = rng.choice(["none", "tick", "ticks", "time", "times", "days", "negtick"])
+            form = rng.choice(["none", "tick", "ticks", "time", "times", "days", "negtick", "endtick"])
             a = rng.choice(nticks + [0, max(nticks) + 5, rng.randint(0, max(nticks) + 50)])
             b = rng.choice(nticks + [a, a + 1, max(nticks) + 5, rng.randint(0, max(nticks) + 500)])
             args, sb, eb = (), "~", "~"
@@ -151,6 +159,8 @@ def slice(ctx: fw.Ctx) -> fw.Outcome:
                 ta = rng.choice(nts + [timedelta(0), timedelta(microseconds=rng.randint(0, 10**7))])
                 tb = rng.choice(nts + [ta, ta + US, timedelta(microseconds=rng.randint(0, 10**8))])
                 args, sb, eb = (ta, tb), f"u{ta // US}", f"u{tb // US}"
+            if form == "endtick":   # only the end given, as a tick: the start is time zero (a time as the only end hits the typed API's assert)
+                args, eb = (None, b), f"t{b}"
             if form == "negtick":
                 # a bound before the map has no time: ValueError whatever the other bound
                 neg = -rng.choice([1, 2, 192, rng.randint(1, 5000)])
@@ -204,9 +214,12 @@ def replay(ctx, data):
         if s == "~":
             return None
         return int(s[1:]) if s[0] == "t" else timedelta(microseconds=int(s[1:]))
-    args = [a for a in (arg(data["start"]), arg(data["end"])) if a is not None]
+    a0, a1 = arg(data["start"]), arg(data["end"])
     try:
-        v = impl.rat(float(c.notes_per_second(ins[data["i"]], dif[data["d"]], *args)))
+        if a0 is None and a1 is not None:
+            v = impl.rat(float(c.notes_per_second(ins[data["i"]], dif[data["d"]], end=a1)))
+        else:
+            v = impl.rat(float(c.notes_per_second(ins[data["i"]], dif[data["d"]], *[a for a in (a0, a1) if a is not None])))
     except Exception as ex:  # noqa: BLE001
         v = impl.err_name(ex)
     if "want" in data:
